@@ -93,6 +93,7 @@ def run_check(pid, tier="quick", seed=0, replay=None):
     log(f"[check] property={pid} tier={tier} seed={seed}")
     problems = []          # (kind, text) ; kind in proof / audit / build
     violations = []        # replay paths
+    stats = {}
     known_hits = {}
     if True:   # builds are serialised where they share output: gen_consts (lock), coqmk (flock), cargo (its own lock); drivers are per property
         with core.BuildLock():
@@ -108,9 +109,18 @@ def run_check(pid, tier="quick", seed=0, replay=None):
             ok2, out2 = core.coq_make([f"theories/Model/Entry_{pid}.vo"])
             if not ok2:
                 problems.append(("model-build", out2[-3000:]))
-        bad = core.audit_sources()
+        # the verdict depends on the files this property's theorems are built from; the rest of the
+        # development (other properties' files, possibly under construction) is audited too and
+        # reported, but does not decide this property
+        closure = core.coq_closure(targets)
+        bad = core.audit_sources(closure)
         if bad:
             problems.append(("audit", "forbidden vernacular: " + "; ".join(bad[:10])))
+        bad_elsewhere = [b for b in core.audit_sources() if b not in bad]
+        if bad_elsewhere:
+            log("[check] NOTE: forbidden vernacular outside this property's closure (does not decide it): " + "; ".join(bad_elsewhere[:5]))
+        stats["audit_files_in_closure"] = len(closure) if closure is not None else -1
+        stats["audit_clean_whole_development"] = not bad_elsewhere and not bad
         assum = {}
         if proof_ok:
             assum, fails = core.audit_assumptions(pid, prop.THEOREMS)
@@ -133,7 +143,6 @@ def run_check(pid, tier="quick", seed=0, replay=None):
 
     build_broken = any(k in ("driver-build", "harness-build", "model-build") for k, _ in problems)
     results = []
-    stats = {}
     if replay:
         rp = json.load(open(replay))
         cases = [(rp["case"], ["replay"])] if rp.get("case") else []
